@@ -1718,8 +1718,9 @@ class SQLObject(with_metaclass(declarative.DeclarativeMeta, object)):
                 for row in results:
                     row.destroySelf()
 
-        self.sqlmeta._obsolete = True
         self._connection._SO_delete(self)
+        # only once the row is really gone
+        self.sqlmeta._obsolete = True
         self._connection.cache.expire(self.id, self.__class__)
 
         for func in post_funcs:
